@@ -22,7 +22,7 @@ def plan(ctx):
 
 
 def run(ctx):
-    res = sf.run_store(ctx, "C03", ["fiber", "tensor"], plan(ctx), validator=("MapTrace.tla", "MapTrace.cfg"), ids=True, wide=2500 if ctx.quick else 30000)
+    res = sf.run_store(ctx, "C03", ["fiber", "tensor"], plan(ctx), validator=("MapTrace.tla", "MapTrace.cfg"), ids=True, wide=2500 if ctx.quick else 30000, share=400 if ctx.quick else 6000)
     # rank-0 tensors: Tensor-level delegation to the single boxed value
     from . import family
     r0 = []
